@@ -63,7 +63,7 @@ static std::vector<std::string> split(const std::string& s, char sep) {
     return out;
 }
 
-static const char* kSettings[] = {"ttl", "port", "token", "pow", "dir", "persistent"};
+static const char* kSettings[] = {"ttl", "port", "token", "pow", "dir", "persistent", "aap"};
 static std::pair<std::string, std::string> path_of(const std::string& s) {
     if (s == "ttl") return {"node", "default_ttl_seconds"};
     if (s == "port") return {"control", "port"};
@@ -71,6 +71,7 @@ static std::pair<std::string, std::string> path_of(const std::string& s) {
     if (s == "pow") return {"announce", "pow_difficulty"};
     if (s == "dir") return {"storage", "directory"};
     if (s == "persistent") return {"storage", "persistent"};
+    if (s == "aap") return {"control", "advertise_allow_private"};
     std::fprintf(stderr, "cfglayers: unknown setting %s\n", s.c_str());
     std::exit(2);
 }
@@ -80,7 +81,7 @@ static std::string doc_value(const std::string& s, long c, bool json) {
     if (s == "ttl") return std::to_string(3600 + c);
     if (s == "port") return std::to_string(41000 + c);
     if (s == "pow") return std::to_string(6 + c);
-    if (s == "persistent") return c == 1 ? "true" : "false";
+    if (s == "persistent" || s == "aap") return c == 1 ? "true" : "false";
     std::string v = s == "token" ? "tok" + std::to_string(c) : dir_of(c);
     return json ? "\"" + v + "\"" : v;
 }
@@ -191,6 +192,7 @@ static long code_of_effective(const std::string& s, const ephemeralnet::Config& 
     if (s == "port") { long v = cfg.control_port; raw = std::to_string(v); return v == 47777 ? 0 : (v > 41000 && v < 41100 ? v - 41000 : -1); }
     if (s == "pow") { long v = cfg.announce_pow_difficulty; raw = std::to_string(v); return v == 6 ? 0 : (v > 6 && v <= 24 ? v - 6 : -1); }
     if (s == "persistent") { raw = cfg.storage_persistent_enabled ? "true" : "false"; return cfg.storage_persistent_enabled ? 1 : 2; }
+    if (s == "aap") { raw = cfg.advertise_allow_private ? "true" : "false"; return cfg.advertise_allow_private ? 1 : 2; }
     if (s == "token") {
         if (!cfg.control_token) { raw = "<unset>"; return 0; }
         raw = *cfg.control_token;
@@ -302,6 +304,7 @@ int main(int argc, char** argv) {
             else if (t.setting == "pow") { args.push_back("--announce-pow"); args.push_back(std::to_string(6 + t.code)); }
             else if (t.setting == "dir") { args.push_back("--storage-dir"); args.push_back(dir_of(t.code)); }
             else if (t.setting == "persistent") args.push_back(t.code == 1 ? "--persistent" : "--no-persistent");
+            else if (t.setting == "aap") { if (t.code == 1) args.push_back("--advertise-allow-private"); else { std::fprintf(stderr, "cfglayers: the command line cannot switch aap off\n"); std::exit(2); } }
         }
         args.push_back("serve");
 
@@ -365,7 +368,7 @@ int main(int argc, char** argv) {
         }
         std::string outcome = g_have_config ? "ok" : (rc != 0 || how == "threw" ? "error" : "nocapture");
         std::string eff = "{", raw = "{";
-        for (size_t i = 0; i < 6; ++i) {
+        for (size_t i = 0; i < sizeof(kSettings) / sizeof(kSettings[0]); ++i) {
             std::string r = "-";
             long code_v = g_have_config ? code_of_effective(kSettings[i], g_config, r) : -1;
             eff += std::string(i ? "," : "") + "\"" + kSettings[i] + "\":" + std::to_string(code_v);
